@@ -358,6 +358,33 @@ def check(pid, tier, seed):
             k = len(corpus) + ci if len(corpus) + ci < len(cases) else ci
             samples.append({"ops": cases[k][:12], "impl": (impl[k] or [])[:12]})
 
+    # ---- extra areas: a plugin may fuzz the decoding ops of OTHER properties' areas (C19 does); those cases run
+    # through that area's adapter and model with that plugin's comparison rules, and are judged by this plugin's
+    # `oracle_extra`. A violating case is recorded with its own area for replay.
+    extra_total = 0
+    if ok_build and os.path.exists(DRIVER) and hasattr(plug, "extra_cases"):
+        for xpid, xcases in plug.extra_cases(random.Random(seed + 17), tier):
+            xplug = load_plugin(xpid)
+            ximpl, xmodel, xerrs = run_both(xplug, xcases, shards)
+            tie["errors"] += xerrs
+            extra_total += len(xcases)
+            for c, i, m in zip(xcases, ximpl, xmodel):
+                d = compare(xplug, c, i, m)
+                if d is not None:
+                    tie["mismatches"] += 1
+                    if tie["first_mismatch"] is None:
+                        tie["first_mismatch"] = {"case_index": -1, "case": c, "area": xplug.AREA, "impl_out": i, "model_out": m, **d}
+                if i is not None:
+                    for v in plug.oracle_extra(xpid, c, i):
+                        v["area"] = xplug.AREA
+                        v["case"] = c
+                        oracle_fail.append((-1, v))
+                    plug.stats_extra(xpid, c, i, dist)
+                    nontrivial.add(hashlib.sha256((xpid + "\n".join(c) + "\n".join(i)).encode()).hexdigest())
+            if xcases and ximpl and ximpl[0] is not None:
+                samples.append({"area": xplug.AREA, "ops": xcases[0][:6], "impl": ximpl[0][:6]})
+    tie["cases"] += extra_total
+
     # ---- decision
     def classify(v):
         for k in known:
@@ -369,13 +396,20 @@ def check(pid, tier, seed):
     for ci, v in oracle_fail:
         k = classify(v)
         if k:
-            known_hit.setdefault(k["id"], (k, cases[ci], v))
+            known_hit.setdefault(k["id"], (k, cases[ci] if ci >= 0 else v.get("case"), v))
         else:
             new_oracle.append((ci, v))
 
     broken = (not pr["ok"]) or tie["mismatches"] > 0 or tie["errors"]
     searched = 0
-    if new_oracle:
+    if new_oracle and new_oracle[0][0] == -1:
+        ci, v = new_oracle[0]
+        case, area = v.pop("case"), v["area"]
+        o, _ = run_lines(HARNESS_BIN, area, flatten([case]))
+        violations.append(("oracle", v["msg"], {"property": pid, "kind": "implementation-violates-property",
+                           "area": area, "violation": v, "case": case,
+                           "impl": unflatten([case], o or [])[0], "seed": seed}))
+    elif new_oracle:
         ci, v = new_oracle[0]
         case = cases[ci]
 
@@ -439,8 +473,12 @@ def check(pid, tier, seed):
                        "no_longer_checks": what, "searched_cases": searched, "seed": seed}
             if tie["first_mismatch"]:
                 fm = tie["first_mismatch"]
-                payload.update({"case": fm["case"], "diverges_at": fm["step"], "impl": impl[fm["case_index"]],
-                                "model": model[fm["case_index"]]})
+                if fm["case_index"] >= 0:
+                    payload.update({"case": fm["case"], "diverges_at": fm["step"], "impl": impl[fm["case_index"]],
+                                    "model": model[fm["case_index"]]})
+                else:
+                    payload.update({"case": fm["case"], "diverges_at": fm["step"], "area": fm["area"],
+                                    "impl": fm["impl_out"], "model": fm["model_out"]})
             violations.append(("unproved", "; ".join(what)[:300], payload))
 
     for kid, (k, c, v) in known_hit.items():
@@ -514,16 +552,19 @@ def replay(path):
         print("harness build failed:", err)
         return 2
     case = payload["case"]
-    o, e = run_lines(HARNESS_BIN, plug.AREA, flatten([case]))
+    area = payload.get("area", plug.AREA)
+    if area != plug.AREA:
+        plug = load_plugin(area.upper())
+    o, e = run_lines(HARNESS_BIN, area, flatten([case]))
     impl = unflatten([case], o or [])[0]
-    m, e2 = run_lines(DRIVER, plug.AREA, flatten([model_ops(plug, case, impl)]))
+    m, e2 = run_lines(DRIVER, area, flatten([model_ops(plug, case, impl)]))
     model = unflatten([case], m or [])[0]
     for i, op in enumerate(case):
         a = impl[i] if i < len(impl) else "<missing>"
         b = model[i] if i < len(model) else "<missing>"
         flag = "" if default_norm(a) == default_norm(b) else "   <-- differs"
         print(f"{op:50s} impl={a!s:30s} model={b!s}{flag}")
-    bad = plug.oracle(case, impl)
+    bad = plug.oracle(case, impl) + [{"kind": "panic", "msg": o} for o in impl if str(o).startswith("panic")]
     print("oracle:", bad if bad else "property holds on this case")
     return 1 if bad else 0
 
